@@ -783,17 +783,22 @@ func allocAddressTaken(al *ssa.Alloc) bool {
 // Matchers use it to be insensitive to the extraction of small helpers.
 func (pv *Prov) ExpandAll(s string, pattern ...string) string {
 	keep := func(k string) bool {
-		// k = "call <name>(args)": the helper's name up to the first "("-after-name
-		name := strings.TrimPrefix(k, "call ")
-		if i := strings.Index(name, ")."); i >= 0 {
-			if j := strings.Index(name[i+2:], "("); j >= 0 {
-				name = name[i+2 : i+2+j]
+		// k = "call <callee>(args)": a helper the pattern names itself (by its full callee text) stays
+		head := k
+		depth := 0
+		for i := 0; i < len(k); i++ {
+			if k[i] == '(' {
+				if depth == 0 && i > 5 && k[i-1] != ' ' { // the "(" that opens the argument list
+					head = k[:i]
+					break
+				}
+				depth++
+			} else if k[i] == ')' {
+				depth--
 			}
-		} else if j := strings.Index(name, "("); j >= 0 {
-			name = name[:j]
 		}
 		for _, p := range pattern {
-			if strings.Contains(p, name) {
+			if strings.Contains(strings.ReplaceAll(p, "\\", ""), head+"(") {
 				return true
 			}
 		}
